@@ -426,6 +426,8 @@ class PDFPageInterpreter:
         self.curpath: List[PathSegment] = []
         # argstack: stack for command arguments.
         self.argstack: List[PDFStackT] = []
+        # inline images are named by their order of appearance in the content.
+        self.inline_image_count = 0
         # set some global states.
         self.scs: Optional[PDFColorSpace] = None
         self.ncs: Optional[PDFColorSpace] = None
@@ -1175,7 +1177,9 @@ class PDFPageInterpreter:
     def do_EI(self, obj: PDFStackT) -> None:
         """End inline image object"""
         if isinstance(obj, PDFStream) and "W" in obj and "H" in obj:
-            iobjid = str(id(obj))
+            # the name must not depend on memory addresses
+            self.inline_image_count += 1
+            iobjid = "inline%d" % self.inline_image_count
             self.device.begin_figure(iobjid, (0, 0, 1, 1), MATRIX_IDENTITY)
             self.device.render_image(iobjid, obj)
             self.device.end_figure(iobjid)
